@@ -490,7 +490,21 @@ fn check_one_step(c: &OneStep) -> Case {
     Case::pass(c.d != 0 && c.bitmap != 0xffff && c.bitmap != 0)
 }
 
+/// The counter verdicts of the node-level group reception scenario (`sim/grouprx.rs`).
+fn check_node_group_rx(case: &vh::sim::grouprx::GrxCase) -> Case {
+    use vh::sim::grouprx::{run, Class};
+    let out = run(case);
+    if let Some(why) = &out.inconclusive {
+        return Case::inconclusive(why.clone());
+    }
+    match out.first(Class::Counter) {
+        Some(f) => Case::fail(f.signature.clone(), f.detail.clone()),
+        None => Case::pass(out.nontrivial).labels(out.labels.clone()),
+    }
+}
+
 fn main() {
+    vh::util::init_stderr_log();
     let mut run = Run::new(
         "C04",
         "exploration",
@@ -523,6 +537,12 @@ fn main() {
         }
     }
     run.exhaustive("one-step-table", items, check_one_step);
+
+    // node level: the counter check as the device's group receive path applies it
+    run.assume("node-group-rx: only authenticated group data messages count as accepted; a sender is forgotten once 16 other senders were used after it (GroupCtrStore: LRU table of 16); control-flagged messages are outside the (data) counter statement");
+    run.assume("node-group-rx: same scenario and generator as C03 node-group-rx (sim/grouprx.rs); a sender does not reuse a 32-bit counter value while the device still handles the earlier message carrying it; whether a refused duplicate refreshes the least-recently-used order of the tracked senders is left open (three-valued eviction model); findings made while or after a datagram arrived during the handling of an earlier message from the same address/node/session id carry the suffix ':handling-overlap'");
+    let n = run.cases(40_000, 2_000_000);
+    run.prop("node-group-rx", n, vh::sim::grouprx::grx_case, check_node_group_rx);
 
     run.finish();
 }
